@@ -107,7 +107,7 @@ def profrs_doc(p, prof_url, trailing=True, msgsets=ALL_MSGSETS, closing=("Y", "Y
         ("CLIENTUIDREQ", "Y" if p.n % 2 else "N")])])
     kids = [msgsetlist, signoninfo, ("DTPROFUP", refofx.fmt_dt(p.date, p.date_style)),
             ("FINAME", p.marker), ("ADDR1", "1 Main St"), ("ADDR2", "Suite " + "7" * _addr_len(p.n)),
-            ("CITY", "Springfield"), ("STATE", "NY"),
+            ("CITY", "Montr\u00e9al" if p.n % 3 == 1 else "Springfield"), ("STATE", "NY"),
             ("POSTALCODE", "10001"), ("COUNTRY", "USA")]
     if trailing:
         kids += [("CSPHONE", "555-0100"), ("URL", "https://www.bank.invalid/"),
